@@ -155,6 +155,7 @@ type Engine struct {
 	modBusy      map[*ssa.Function]bool
 	fnByName     map[string]*ssa.Function
 	newHelpers   map[*ssa.Function]bool // shape.go: functions absent from the baseline, verified inlined
+	noAssume     []string               // Options.NoAssume
 	usedSpecs    map[string]bool
 	typeIDs      map[string]int
 	strConsts    map[string]string
